@@ -37,7 +37,7 @@ PATHS = ['a', 'b', 'c/a', 'c/b', 'c/d/a', 'e/a/b/c', 'class', 'x y', '1a',
          'c/x-y', 'f/g']
 VALUES = ['none', 'zero', 'false', 'empty_str', 'empty_list', 'empty_dict',
           'zero_float', 'nan', 'eq_false', 'eq_raises', 'bool_raises', 'obj',
-          'world']
+          'world', 'eq_true', 'ne_weird']
 FALSY = set(VALUES) - {'obj', 'world'}
 ACCESS = ['call', 'item', 'chain', 'get_call', 'static_attr', 'static_item',
           'cached', 'clear', 'switch', 'pstatic_attr', 'pstatic_item']
@@ -77,6 +77,23 @@ def make_factory(desper, kind):
             raise RuntimeError('__eq__ must not be used on resources')
         __hash__ = object.__hash__
 
+    class EqTrue:
+        """Equal to everything (like unittest.mock.ANY)."""
+        def __eq__(self, other):
+            return True
+
+        def __ne__(self, other):
+            return False
+        __hash__ = object.__hash__
+
+    class NeWeird:
+        def __eq__(self, other):
+            return NotImplemented
+
+        def __ne__(self, other):
+            return 'maybe'
+        __hash__ = object.__hash__
+
     class BoolRaises:
         def __bool__(self):
             raise RuntimeError('__bool__ must not be used on resources')
@@ -87,6 +104,7 @@ def make_factory(desper, kind):
         'zero_float': lambda: 0.0, 'nan': lambda: float('nan'),
         'eq_false': EqFalse, 'eq_raises': EqRaises,
         'bool_raises': BoolRaises, 'obj': object, 'world': desper.World,
+        'eq_true': EqTrue, 'ne_weird': NeWeird,
     }
     return table[kind]
 
@@ -170,7 +188,7 @@ def run_case(case):
         except Exception as ex:
             res.div(at, 'cached-raised', 'cached raised', 'bool', repr(ex))
             return False
-        if cached != loaded[i]:
+        if bool(cached) is not loaded[i]:
             res.div(at, 'cached-mismatch', f'handle {i}.cached before a '
                     f'{kind} access', loaded[i], cached)
             return False
@@ -217,7 +235,7 @@ def run_case(case):
         res.tags['access_kind'].add(kind)
         if kind == 'cached':
             res.stats['accesses_checked'] += 1
-            if hs[i].cached != loaded[i]:
+            if bool(hs[i].cached) is not loaded[i]:
                 res.div(at, 'cached-mismatch', f'handle {i}.cached',
                         loaded[i], hs[i].cached)
                 break
